@@ -138,7 +138,7 @@ HASH_KINDS = ["HASHHF", "HASHRPF", "HASHUFFDAC", "HASHRPDAC", "BLOCKS"]
 ALL_KINDS = FC_KINDS + ["RPDAC"] + HASH_KINDS + ["FMINDEX", "XBW"]
 PREFIX_KINDS = FC_KINDS + ["RPDAC", "FMINDEX", "XBW"]
 SUBSTR_KINDS = ["FMINDEX", "XBW"]
-EXACT_ID_KINDS = ORDERED_KINDS + ["XBW", "HASHRPDAC", "BLOCKS"]   # kinds whose IDs the model predicts
+EXACT_ID_KINDS = ORDERED_KINDS + ["XBW", "HASHRPDAC", "HASHRPF", "BLOCKS"]   # kinds whose IDs the model predicts
 
 
 SAVE_OPS = ("save", "save2", "resave", "foreign", "image", "reload")
@@ -210,7 +210,7 @@ def kind_cases(tier, rng, kinds, ops_fn, phases=("built", "loaded"), many=False,
         for kind in kinds:
             r = rng.fork(dname + kind)
             for pv in param_vectors(kind, r, len(S), tier, many):
-                if kind == "HASHRPDAC":
+                if kind in ("HASHRPDAC", "HASHRPF"):
                     pv = dict(pv)
                     pv["hs"] = int(len(S) * (1 + (int(pv.get("ov", 25)) * 1.0 / 100.0)))
                 ops = ops_fn(kind, pv, S, r)
